@@ -61,13 +61,139 @@ func (s *Spec) PI(key string, def int) int {
 	return def
 }
 
+// NoSync switches the kernel's global lock off (race-detector runs): with one
+// P and no preemption its critical sections can never interleave, and a real
+// mutex taken at every schedule point would order every pair of goroutines in
+// the detector's happens-before relation and hide the races we are looking for.
+var NoSync bool
+
+type wlock struct{ m sync.Mutex }
+
+func (l *wlock) Lock() {
+	if !NoSync {
+		l.m.Lock()
+	}
+}
+
+func (l *wlock) Unlock() {
+	if !NoSync {
+		l.m.Unlock()
+	}
+}
+
+// smap is a small string-keyed table used instead of built-in maps for the
+// simulator's own bookkeeping: map operations are checked by the race detector
+// inside the runtime even when the calling function is marked norace, and in
+// race runs (NoSync) that would bury the reports about go-plugin under reports
+// about the harness.
+type smap struct {
+	keys []string
+	vals []int64
+	used []bool
+	n    int
+}
+
+//go:norace
+func smapHash(s string) uint32 {
+	h := uint32(2166136261)
+	for i := 0; i < len(s); i++ {
+		h ^= uint32(s[i])
+		h *= 16777619
+	}
+	return h
+}
+
+//go:norace
+func (m *smap) find(key string) (int, bool) {
+	if len(m.keys) == 0 {
+		return 0, false
+	}
+	mask := uint32(len(m.keys) - 1)
+	for i := smapHash(key) & mask; ; i = (i + 1) & mask {
+		if !m.used[i] {
+			return int(i), false
+		}
+		if m.keys[i] == key {
+			return int(i), true
+		}
+	}
+}
+
+//go:norace
+func (m *smap) Get(key string) (int64, bool) {
+	i, ok := m.find(key)
+	if !ok {
+		return 0, false
+	}
+	return m.vals[i], true
+}
+
+//go:norace
+func (m *smap) grow() {
+	old := *m
+	size := 64
+	if len(old.keys) > 0 {
+		size = len(old.keys) * 2
+	}
+	m.keys, m.vals, m.used, m.n = make([]string, size), make([]int64, size), make([]bool, size), 0
+	for i, u := range old.used {
+		if u {
+			m.Set(old.keys[i], old.vals[i])
+		}
+	}
+}
+
+//go:norace
+func (m *smap) Set(key string, v int64) {
+	if len(m.keys) == 0 || m.n*2 >= len(m.keys) {
+		m.grow()
+	}
+	i, ok := m.find(key)
+	if !ok {
+		m.keys[i], m.used[i] = key, true
+		m.n++
+	}
+	m.vals[i] = v
+}
+
+//go:norace
+func (m *smap) Add(key string, d int64) int64 {
+	v, _ := m.Get(key)
+	m.Set(key, v+d)
+	return v + d
+}
+
+// Map converts to a built-in map (end of run).
+//
+//go:norace
+func (m *smap) Map() map[string]int {
+	out := make(map[string]int, m.n)
+	for i, u := range m.used {
+		if u {
+			out[m.keys[i]] = int(m.vals[i])
+		}
+	}
+	return out
+}
+
+//go:norace
+func (m *smap) Map64() map[string]int64 {
+	out := make(map[string]int64, m.n)
+	for i, u := range m.used {
+		if u {
+			out[m.keys[i]] = m.vals[i]
+		}
+	}
+	return out
+}
+
 type World struct {
-	mu   sync.Mutex
+	mu   wlock
 	Spec *Spec
 
-	idx     map[string]int   // per-key draw counter
-	Choices map[string]int64 // non-zero choices actually taken: "key#idx" -> value
-	hot     map[string]bool
+	idx     smap // per-key draw counter
+	choices smap // non-zero choices actually taken: "key#idx" -> value
+	hot     smap
 	focus   []string
 	faultOn map[string]bool
 
@@ -83,21 +209,21 @@ type World struct {
 	tmpN      int
 	busyPorts map[int]bool
 
-	seq      uint64
-	logHash  uint64
-	Log      []string
-	KeepLog  bool
+	seq        uint64
+	logHash    uint64
+	Log        []string
+	KeepLog    bool
 	DebugDraws bool
 	DebugY     bool
-	Events   []Event
-	start    time.Time
-	Faults   map[string]int
-	Probes   map[string]int
-	SitePass map[string]int // "proc site" -> count (profile mode)
-	EvPass   map[string]int // "proc evkey" -> count
-	PassSeq  []string       // ordered distinct "proc|on|key" in first-pass order (profile mode)
-	passSeen map[string]bool
-	Injected time.Duration // total delay injected by the simulator (yields + latency)
+	Events     []Event
+	start      time.Time
+	faults     smap
+	probes     smap
+	sitePass   smap     // "proc site" -> count (profile mode)
+	evPass     smap     // "proc evkey" -> count
+	PassSeq    []string // ordered distinct "proc|on|key" in first-pass order (profile mode)
+	passSeen   smap
+	Injected   time.Duration // total delay injected by the simulator (yields + latency)
 
 	Hooks []func(ev *Event) // oracles observing kernel events while the run proceeds
 	// OnPipeWrite observes every write to a pipe before it is queued (raw
@@ -123,9 +249,6 @@ var W *World
 func Boot(spec *Spec) *World {
 	w := &World{
 		Spec:      spec,
-		idx:       map[string]int{},
-		Choices:   map[string]int64{},
-		hot:       map[string]bool{},
 		faultOn:   map[string]bool{},
 		procs:     map[int]*Proc{},
 		byName:    map[string]*Proc{},
@@ -135,11 +258,6 @@ func Boot(spec *Spec) *World {
 		listeners: map[string]*Listener{},
 		nextPort:  20000,
 		start:     time.Now(),
-		Faults:    map[string]int{},
-		Probes:    map[string]int{},
-		SitePass:  map[string]int{},
-		EvPass:    map[string]int{},
-		passSeen:  map[string]bool{},
 		logHash:   14695981039346656037,
 	}
 	if spec.Overrides == nil {
@@ -183,9 +301,12 @@ func H(seed uint64, key string, idx int) uint64 {
 
 // draw returns the override for the next occurrence of key (if any) and the
 // seeded hash for it. It must be called with w.mu held.
+//
+//go:norace
 func (w *World) draw(key string) (full string, u uint64, ov int64, has bool) {
-	i := w.idx[key]
-	w.idx[key] = i + 1
+	i64, _ := w.idx.Get(key)
+	i := int(i64)
+	w.idx.Set(key, i64+1)
 	full = fmt.Sprintf("%s#%d", key, i)
 	ov, has = w.Spec.Overrides[full]
 	if !has && !w.Spec.Explicit {
@@ -194,13 +315,16 @@ func (w *World) draw(key string) (full string, u uint64, ov int64, has bool) {
 	return
 }
 
+//go:norace
 func (w *World) record(full string, v int64) {
 	if v != 0 {
-		w.Choices[full] = v
+		w.choices.Set(full, v)
 	}
 }
 
 // Range draws a value in [0,n); 0 is the benign choice.
+//
+//go:norace
 func (w *World) Range(key string, n int) int {
 	if n <= 1 {
 		return 0
@@ -210,6 +334,7 @@ func (w *World) Range(key string, n int) int {
 	return w.rangeLocked(key, n)
 }
 
+//go:norace
 func (w *World) rangeLocked(key string, n int) int {
 	full, u, ov, has := w.draw(key)
 	var v int64
@@ -232,12 +357,15 @@ func (w *World) rangeLocked(key string, n int) int {
 }
 
 // Flip is true with probability permille/1000 (seeded mode), false by default.
+//
+//go:norace
 func (w *World) Flip(key string, permille int) bool {
 	w.mu.Lock()
 	defer w.mu.Unlock()
 	return w.flipLocked(key, permille)
 }
 
+//go:norace
 func (w *World) flipLocked(key string, permille int) bool {
 	full, u, ov, has := w.draw(key)
 	var v int64
@@ -257,12 +385,15 @@ func (w *World) flipLocked(key string, permille int) bool {
 // Delay draws a duration according to class; 0 by default. The chosen value
 // (in ns) is what is recorded, so a replay or a shrunk override can carry any
 // duration.
+//
+//go:norace
 func (w *World) Delay(key, class string, permille int) time.Duration {
 	w.mu.Lock()
 	defer w.mu.Unlock()
 	return w.delayLocked(key, class, permille)
 }
 
+//go:norace
 func (w *World) delayLocked(key, class string, permille int) time.Duration {
 	full, u, ov, has := w.draw(key)
 	var v int64
@@ -305,15 +436,17 @@ func delayLaw(class string, u uint64) int64 {
 // FaultOn reports whether a fault kind is enabled for this run.
 func (w *World) FaultOn(kind string) bool { return w.faultOn[kind] || w.faultOn["all"] }
 
+//go:norace
 func (w *World) CountFault(kind string) {
 	w.mu.Lock()
-	w.Faults[kind]++
+	w.faults.Add(kind, 1)
 	w.mu.Unlock()
 }
 
+//go:norace
 func (w *World) Probe(name string) {
 	w.mu.Lock()
-	w.Probes[name]++
+	w.probes.Add(name, 1)
 	w.mu.Unlock()
 }
 
@@ -321,6 +454,8 @@ func (w *World) Probe(name string) {
 
 // Ev records a kernel event, feeds the running hash and fires event triggers.
 // Must be called WITHOUT w.mu held.
+//
+//go:norace
 func (w *World) Ev(p *Proc, kind, key, arg string) {
 	pname := "-"
 	if p != nil {
@@ -352,10 +487,10 @@ func (w *World) Ev(p *Proc, kind, key, arg string) {
 	if p != nil && p.state == Running && Cur() == p {
 		if w.Spec.Profile {
 			pk := pname + " " + evkey
-			w.EvPass[pk]++
+			w.evPass.Add(pk, 1)
 			id := pname + "|event|" + evkey
-			if !w.passSeen[id] {
-				w.passSeen[id] = true
+			if _, seen := w.passSeen.Get(id); !seen {
+				w.passSeen.Set(id, 1)
 				w.PassSeq = append(w.PassSeq, id)
 			}
 		}
@@ -373,6 +508,7 @@ func (w *World) Ev(p *Proc, kind, key, arg string) {
 // Note records a harness-level happening (operation invoke/return) in the log.
 func (w *World) Note(kind, key, arg string) { w.Ev(nil, kind, key, arg) }
 
+//go:norace
 func (w *World) LogHash() string {
 	w.mu.Lock()
 	defer w.mu.Unlock()
@@ -381,6 +517,7 @@ func (w *World) LogHash() string {
 	return fmt.Sprintf("%x", b)
 }
 
+//go:norace
 func (w *World) Seq() uint64 {
 	w.mu.Lock()
 	defer w.mu.Unlock()
@@ -388,6 +525,7 @@ func (w *World) Seq() uint64 {
 	return w.seq
 }
 
+//go:norace
 func (w *World) matchTriggers(on, pname, key string) []*Trigger {
 	var out []*Trigger
 	for _, t := range w.Spec.Triggers {
@@ -413,6 +551,7 @@ func (w *World) matchTriggers(on, pname, key string) []*Trigger {
 	return out
 }
 
+//go:norace
 func (w *World) fire(t *Trigger, p *Proc) {
 	act, arg, _ := strings.Cut(t.Act, ":")
 	w.CountFault("trigger." + act)
@@ -453,12 +592,14 @@ func (w *World) fire(t *Trigger, p *Proc) {
 	}
 }
 
+//go:norace
 func (w *World) addInjected(d time.Duration) {
 	w.mu.Lock()
 	w.Injected += d
 	w.mu.Unlock()
 }
 
+//go:norace
 func (w *World) InjectedTotal() time.Duration {
 	w.mu.Lock()
 	defer w.mu.Unlock()
@@ -467,9 +608,10 @@ func (w *World) InjectedTotal() time.Duration {
 
 // ---- schedule points ------------------------------------------------------------
 
+//go:norace
 func (w *World) isHot(site string) bool {
-	if h, ok := w.hot[site]; ok {
-		return h
+	if h, ok := w.hot.Get(site); ok {
+		return h != 0
 	}
 	h := false
 	for _, f := range w.focus {
@@ -480,11 +622,17 @@ func (w *World) isHot(site string) bool {
 	if !h && w.Spec.HotPermille > 0 {
 		h = int(H(w.Spec.Seed, "hot/"+site, 0)%1000) < w.Spec.HotPermille
 	}
-	w.hot[site] = h
+	if h {
+		w.hot.Set(site, 1)
+	} else {
+		w.hot.Set(site, 0)
+	}
 	return h
 }
 
 // Y is the schedule point woven before every statement of go-plugin.
+//
+//go:norace
 func Y(site string) {
 	w := W
 	if w == nil {
@@ -501,10 +649,10 @@ func Y(site string) {
 		w.Log = append(w.Log, fmt.Sprintf("   Y %s %s [draws=%d]", pname, site, rtDraws()))
 	}
 	if w.Spec.Profile {
-		w.SitePass[pname+" "+site]++
+		w.sitePass.Add(pname+" "+site, 1)
 		id := pname + "|site|" + site
-		if !w.passSeen[id] {
-			w.passSeen[id] = true
+		if _, seen := w.passSeen.Get(id); !seen {
+			w.passSeen.Set(id, 1)
 			w.PassSeq = append(w.PassSeq, id)
 		}
 	}
@@ -570,4 +718,33 @@ func SortedKeys[V any](m map[string]V) []string {
 	}
 	sort.Strings(ks)
 	return ks
+}
+
+// Faults, Probes, Choices, SitePass, EvPass as built-in maps (end of run / oracles).
+//
+//go:norace
+func (w *World) Faults() map[string]int { return w.faults.Map() }
+
+//go:norace
+func (w *World) Probes() map[string]int { return w.probes.Map() }
+
+//go:norace
+func (w *World) Choices() map[string]int64 { return w.choices.Map64() }
+
+//go:norace
+func (w *World) SitePass() map[string]int { return w.sitePass.Map() }
+
+//go:norace
+func (w *World) EvPass() map[string]int { return w.evPass.Map() }
+
+//go:norace
+func (w *World) FaultCount(kind string) int {
+	v, _ := w.faults.Get(kind)
+	return int(v)
+}
+
+//go:norace
+func (w *World) ProbeCount(name string) int {
+	v, _ := w.probes.Get(name)
+	return int(v)
 }
